@@ -15,6 +15,7 @@
 import AdaptixModel.Conv.Convert
 import AdaptixProofs.Lemmas.ConvMain
 import AdaptixProofs.Lemmas.ConvRefuse
+import AdaptixProofs.Lemmas.ConvFacade
 
 set_option linter.unusedSimpArgs false
 
@@ -393,6 +394,105 @@ theorem src_untouched (st : Store) (p : Plan) (v : Val) (st' : Store)
     simp [he] at h
     exact h.2.symm
 
+/-! ### The facade: what a request returns is fixed by its own recipe, never by earlier requests
+
+`runHistory` is the model of `conversion/facade/retort.py` with its `_simple_converter_cache`
+(`AdaptixModel/Conv/Facade.lean`); `specHistory` answers every request from the recipes alone. -/
+
+/-- **No request depends on the history.**  For every class table, fuel, initial recipes of any number of
+    freshly created retorts and every history of `extend` / `get_converter` / `convert` / `impl_converter`
+    operations of any length — with and without per-call recipes, repeated keys, in any order — every
+    operation returns exactly what the cache-free specification returns: the converter produced from the
+    per-call recipe followed by the recipe of the addressed retort (or ProviderNotFoundError alike). -/
+theorem history_eq_fresh (W : World) (fuel : Nat) (recipes : List (List Provider)) (ops : List FacadeOp) :
+    (runHistory W fuel (recipes.map Retort.new) ops).1 = (specHistory W fuel recipes ops).1 := by
+  have h := (runHistory_spec W fuel ops (recipes.map Retort.new) (by
+    intro r hr
+    obtain ⟨rc, _, rfl⟩ := List.mem_map.mp hr
+    exact Retort.new_cacheOK W fuel rc)).1
+  have hm : (recipes.map Retort.new).map (·.recipe) = recipes := by
+    simp [Retort.new, Function.comp_def]
+  rw [hm] at h
+  exact h
+
+/-- the same from *any* reachable state: whatever was requested before (`pre`), the answers to `ops` are
+    those of the specification started from the recipes the retorts have by then -/
+theorem history_eq_fresh_after (W : World) (fuel : Nat) (recipes : List (List Provider)) (pre ops : List FacadeOp) :
+    (runHistory W fuel (runHistory W fuel (recipes.map Retort.new) pre).2 ops).1 =
+      (specHistory W fuel (specHistory W fuel recipes pre).2 ops).1 := by
+  have hinit : ∀ r ∈ recipes.map Retort.new, r.CacheOK W fuel := by
+    intro r hr
+    obtain ⟨rc, _, rfl⟩ := List.mem_map.mp hr
+    exact Retort.new_cacheOK W fuel rc
+  have hm : (recipes.map Retort.new).map (·.recipe) = recipes := by
+    simp [Retort.new, Function.comp_def]
+  obtain ⟨_, h2, h3⟩ := runHistory_spec W fuel pre (recipes.map Retort.new) hinit
+  have h := (runHistory_spec W fuel ops _ h3).1
+  rw [h2, hm] at h
+  exact h
+
+/-- requests never change a recipe: only `extend` adds a retort, `get_converter` / `convert` /
+    `impl_converter` leave the recipes of all retorts as they are -/
+theorem requests_leave_recipes (W : World) (fuel : Nat) (ops : List FacadeOp)
+    (hne : ∀ op ∈ ops, ∀ i rc, op ≠ .extend i rc) (recipes : List (List Provider)) :
+    (specHistory W fuel recipes ops).2 = recipes := by
+  induction ops with
+  | nil => rfl
+  | cons op ops ih =>
+    have ih' := ih (fun o ho => hne o (List.mem_cons_of_mem _ ho))
+    have hop := hne op List.mem_cons_self
+    simp only [specHistory]
+    cases op with
+    | extend i rc => exact absurd rfl (hop i rc)
+    | getConverter i k rc => simp only [specStep]; split <;> exact ih'
+    | convert i s d rc => simp only [specStep]; split <;> exact ih'
+    | implConverter i sig rc => simp only [specStep]; split <;> exact ih'
+
+/-- **A converter requested with a per-call recipe follows the linking rules of that recipe, whatever was
+    requested before.**  After any history `pre` on freshly created retorts, `get_converter(src, dst,
+    name=, recipe=)` on retort `i` (whose recipe is `b` by then) — if it returns a converter at all —
+    returns one whose call on any source value is `convertSpec` under `recipe ++ b`: the per-call links
+    first, then the retort's, then the builtin same-name linking. -/
+theorem get_converter_after_any_history (W : World) (hW : W.WF) (fuel : Nat) (recipes : List (List Provider))
+    (pre : List FacadeOp) (i : Nat) (k : ConvKey) (recipe b : List Provider)
+    (hb : (specHistory W fuel recipes pre).2[i]? = some b) (conv : Converter)
+    (hc : (runHistory W fuel (runHistory W fuel (recipes.map Retort.new) pre).2 [.getConverter i k recipe]).1
+            = [some conv]) (v : Val) :
+    conv.call [v] [] = convertSpec W (recipe ++ b) fuel k.signature [v] := by
+  rw [history_eq_fresh_after] at hc
+  simp only [specHistory, specStep, hb, effectiveRecipe] at hc
+  have hp : provideConverter W (recipe ++ b) fuel k.signature = some conv := by simpa using hc
+  exact call_eq_spec W hW (recipe ++ b) fuel k.signature (by simp [ConvKey.signature]) conv hp [v] [] [v]
+    (by simp [ConvKey.signature, bindSig, bindSigPositional, bindSigKeywords, fillDefaults])
+
+/-- the same for `convert(obj, dst, recipe=)`: it calls the converter of the key `(type(obj), dst, None)` -/
+theorem convert_after_any_history (W : World) (hW : W.WF) (fuel : Nat) (recipes : List (List Provider))
+    (pre : List FacadeOp) (i : Nat) (s d : Ty) (recipe b : List Provider)
+    (hb : (specHistory W fuel recipes pre).2[i]? = some b) (conv : Converter)
+    (hc : (runHistory W fuel (runHistory W fuel (recipes.map Retort.new) pre).2 [.convert i s d recipe]).1
+            = [some conv]) (v : Val) :
+    conv.call [v] [] = convertSpec W (recipe ++ b) fuel (ConvKey.signature ⟨s, d, none⟩) [v] := by
+  rw [history_eq_fresh_after] at hc
+  simp only [specHistory, specStep, hb, effectiveRecipe] at hc
+  have hp : provideConverter W (recipe ++ b) fuel (ConvKey.signature ⟨s, d, none⟩) = some conv := by simpa using hc
+  exact call_eq_spec W hW (recipe ++ b) fuel _ (by simp [ConvKey.signature]) conv hp [v] [] [v]
+    (by simp [ConvKey.signature, bindSig, bindSigPositional, bindSigKeywords, fillDefaults])
+
+/-- the cache is an optimisation only: a repeated recipe-less request returns the very converter of the
+    first one (no new entry, same object) -/
+theorem repeated_plain_request_cached (W : World) (fuel : Nat) (r : Retort) (k : ConvKey) (c : Converter)
+    (h : (r.getConverter W fuel k []).1 = some c) :
+    (r.getConverter W fuel k []).2.cache.lookup k = some c := by
+  simp only [Retort.getConverter, List.isEmpty_nil, if_true] at h ⊢
+  unfold Retort.lookupOrMake at h ⊢
+  cases hl : r.cache.lookup k with
+  | some c' => simp [hl] at h ⊢; exact h
+  | none =>
+    simp only [hl] at h ⊢
+    cases hp : r.produce W fuel k.signature with
+    | none => simp [hp] at h
+    | some c' => simp [hp] at h ⊢; exact h
+
 /-! ### Non-vacuity: concrete instances computed by the definitions -/
 
 section Examples
@@ -464,6 +564,53 @@ example : (provideConverter exOptWorld [] 5 (exOptSig (.iter .list exInt) (.iter
 /-- a field-less source model under `Optional` is rebuilt as the destination model -/
 example : (provideConverter exOptWorld [] 5 (exOptSig exEmptyS exEmptyD)).map (fun c => c.call [.obj 5 []] []) =
     some (some (.obj 6 [])) := by rfl
+
+/-! histories on one retort: `S(a, b) -> P(a, b)`, requested plainly and with the swapping recipe
+    `[link("a", "b"), link("b", "a")]`, in both orders -/
+
+def exPairT : Ty := .model 2 0
+def exPairWorld : World where
+  outShape t := if t = exSrcT then some { fields := [⟨"a", exInt, .attr "a"⟩, ⟨"b", exInt, .attr "b"⟩] } else none
+  inShape t := if t = exPairT then some {
+      cls := 2, fields := [⟨"a", exInt, true, none⟩, ⟨"b", exInt, true, none⟩],
+      params := [⟨"a", "a", .posOrKw⟩, ⟨"b", "b", .posOrKw⟩] } else none
+  asIs s d := s == d
+def exSwap : List Provider := [.link (Pred.name "a") (Pred.name "b") none, .link (Pred.name "b") (Pred.name "a") none]
+def exKey : ConvKey := ⟨exSrcT, exPairT, none⟩
+def exCallAll (rs : List (Option Converter)) : List (Option (Option Val)) :=
+  rs.map (fun r => r.map (fun c => c.call [exSrc] []))
+def exPlainRes : Val := .obj 2 [("a", .atom "int" "1"), ("b", .atom "int" "2")]
+def exSwapRes : Val := .obj 2 [("a", .atom "int" "2"), ("b", .atom "int" "1")]
+
+/-- plain, then the same key with the recipe (through get_converter and through convert), then plain again -/
+example :
+    exCallAll (runHistory exPairWorld 5 [Retort.new []]
+      [.getConverter 0 exKey [], .getConverter 0 exKey exSwap, .convert 0 exSrcT exPairT exSwap,
+       .getConverter 0 exKey []]).1 =
+      [some (some exPlainRes), some (some exSwapRes), some (some exSwapRes), some (some exPlainRes)] := by
+  rfl
+
+/-- recipe first, plain afterwards; a retort extended with the recipe answers the plain request swapped -/
+example :
+    exCallAll (runHistory exPairWorld 5 [Retort.new []]
+      [.getConverter 0 exKey exSwap, .getConverter 0 exKey [], .extend 0 exSwap, .getConverter 1 exKey [],
+       .implConverter 1 exKey.signature []]).1 =
+      [some (some exSwapRes), some (some exPlainRes), none, some (some exSwapRes), some (some exSwapRes)] := by
+  rfl
+
+/-- why the lookup must happen on the retort the converter is built on: a `get_converter` that consults the
+    cache of `self` before honouring the per-call recipe returns, after a plain request, the plain converter —
+    and so contradicts `get_converter_after_any_history` -/
+def exStaleGet (W : World) (fuel : Nat) (self : Retort) (k : ConvKey) (recipe : List Provider) : Option Converter :=
+  match self.cache.lookup k with
+  | some c => some c
+  | none => ((self.extend recipe).lookupOrMake W fuel k).1
+
+example :
+    (exStaleGet exPairWorld 5 ((Retort.new []).getConverter exPairWorld 5 exKey []).2 exKey exSwap).map
+        (fun c => c.call [exSrc] []) = some (some exPlainRes) ∧
+    convertSpec exPairWorld (exSwap ++ []) 5 exKey.signature [exSrc] = some exSwapRes := by
+  constructor <;> rfl
 
 end Examples
 
